@@ -53,6 +53,13 @@ POOL = [
     ('d3', 'datetime', 'from 3pm to 5pm tomorrow', 'en-us', 'SKIP_FROM_TO_MERGE', R1),
     ('d4', 'datetime', 'from 3pm to 5pm tomorrow', 'en-us', None, R1),
     ('d5', 'datetime', 'mañana a las 15:30', 'es-es', None, R1),
+    ('w1', 'datetime', 'monday or nov 7', 'en-us', None, R1),
+    ('w2', 'datetime', 'monday or nov 7', 'en-us', None, R2),
+    ('y1', 'datetime', '2055/04/26 and 4/26/2055', 'en-us', None, R1),
+    ('y2', 'datetime', '2011-04-03 or april 3rd 2011', 'en-us', None, R2),
+    ('h1', 'datetime', 'el día de san valentín y navidad', 'es-es', None, R1),
+    ('h2', 'datetime', "valentine's day, inauguration day and juneteenth", 'en-us', None, R1),
+    ('h3', 'datetime', 'inauguration day, juneteenth und weihnachten', 'de-de', None, R1),
     ('s1', 'ip_address', 'ping 1.2.3.4 or ::1', 'en-us', None, None),
     ('b1', 'boolean', 'yes or no', 'en-us', None, None),
 ]
@@ -67,6 +74,8 @@ DRIVERS = [
     ('D6-warm-datetime-two-queries', ('d1', 'd4'), False, 'coarse', 1, 1),
     ('D7-warm-datetime-options', ('d3', 'd4'), False, 'coarse', 1, 1),
     ('D8-cold-datetime-and-number', ('d5', 'n5'), True, 'coarse', 1, 1),
+    ('D12-built-unused-datetime-two-dates', ('y1', 'y2'), 'built', 'calls', 1, 1),
+    ('D13-warm-datetime-weekday-two-references', ('w1', 'w2'), False, 'coarse', 1, 1),
     ('D9-warm-number-two-preemptions', ('n3', 'n4'), False, 'methods', 2, 2),
     ('D10-warm-percentage-number-two-preemptions', ('p1', 'n2'), False, 'methods', 2, 2),
     ('D11-warm-datetime-two-preemptions', ('d1', 'd4'), False, 'methods', 1, 2),
@@ -198,7 +207,11 @@ def counts_for(driver):
     if name not in S['counts']:
         cs = []
         for first in (0, 1):
-            if cold:
+            if cold == 'built':
+                state.reset_cache()
+                for c in cids:
+                    do_call(c, query='')          # models constructed (empty query), nothing recognised yet
+            elif cold:
                 state.reset_cache()
             else:
                 for c in cids:
@@ -217,7 +230,12 @@ def body(ch):
         a = ch.pick('c1', ids)
         ch.shard()
         n = ch.pick('length', tuple(range(1, CFG['depth'] + 1)))
-        hist = [a] + [ch.pick('c%d' % (i + 2), ids) for i in range(n - 1)]
+        # the longest histories range over the core of the pool (one call per collision family); shorter ones over all of it
+        core = ['n1', 'n3', 'n4', 'n5', 'p1', 'c1', 'u1', 'd1', 'd2', 'd4', 'w2', 'h1', 'h2']
+        if n == CFG['depth'] and a not in core:
+            ch.prune()
+        alphabet = core if n == CFG['depth'] else ids
+        hist = [a] + [ch.pick('c%d' % (i + 2), alphabet) for i in range(n - 1)]
         for i, cid in enumerate(hist):
             got = do_call(cid)
             if got != table[cid]:
@@ -248,7 +266,8 @@ def body(ch):
         from vmc import state
         cid = ch.pick('call', [p[0] for p in POOL])
         ch.shard()
-        second = ch.pick('then', [None] + [p[0] for p in POOL if p[1] in ('number', 'percentage', 'ordinal', 'ip_address', 'boolean')])
+        second = ch.pick('then', [None] + [p[0] for p in POOL if p[1] in ('number', 'percentage', 'ordinal', 'ip_address', 'boolean')
+                                            or p[0] in ('h1', 'h2', 'h3')])
         state.reset_cache()
         seq = [cid] + ([second] if second else [])
         for i, c in enumerate(seq):
@@ -282,11 +301,19 @@ def body(ch):
             gran = 'calls'          # every library call is a scheduling point (about 4,600 per date-time call)
         counts = counts_for(driver)
         plans = sched.plans_up_to(bound, counts)
+        if name.startswith('D12') and CFG['tier'] != 'thorough':
+            # quick tier: preemption positions within the first 1,200 scheduling points of each thread (first-use
+            # initialisation happens at the start of a first call); the thorough tier enumerates every position
+            plans = [pl for pl in plans if len(pl) < 3 or pl[0][1] <= 1200]
         chunk = 40
         ci = ch.pick_index('chunk', (len(plans) + chunk - 1) // chunk)
         ch.shard()
         plan = ch.pick('plan', plans[ci * chunk:(ci + 1) * chunk])
-        if cold:
+        if cold == 'built':
+            state.reset_cache()
+            for c in cids:
+                do_call(c, query='')
+        elif cold:
             state.reset_cache()
         ex = sched.run_plan(S['lib_root'], gran, plan, [lambda c=c: do_call(c) for c in cids])
         ch.tally('schedules')
